@@ -401,6 +401,28 @@ def replay_rope(rec):
                 return f'{src!r} decodes to {tag}:{val!r}'
         elif isinstance(src, int) and (tag != 'i' or val != src):
             return f'int argument {src} decodes to {val!r}'
+    # the library's own decoder
+    try:
+        if j.get('bundle'):
+            own = list(list(oli.OscBundle(dg))[0].params)
+        else:
+            own = list(oli.OscMessage(dg).params)
+    except Exception as e:
+        return f'the library\'s own decoder rejects the datagram it built: {type(e).__name__}: {e}'
+
+    def flat_(x):
+        out = []
+        for y in x:
+            if isinstance(y, list):
+                out.extend(flat_(y))
+            else:
+                out.append(y)
+        return out
+    own = flat_(own)
+    if len(own) == len(flat):
+        for src, val in zip(flat, own):
+            if isinstance(src, (str, bytes)) and val != src:
+                return f'the library\'s own decoder returns {val!r} for the argument {src!r}'
     try:
         pred = addr._calc_bndl_dgram_size([msg, ['/second', 7]]) if j.get('bundle') else addr._calc_msg_dgram_size(msg)
     except Exception as e:
